@@ -204,28 +204,20 @@ func encodeAndSplitGSM7Packed(content string, frameKey byte) ([][]byte, datacodi
 		return [][]byte{gsm7encoding.Pack(contentBytes)}, dataCoding, nil
 	}
 
-	perMsgLength := datacoding.SplitBy153
-	msgCount := ceil(len(contentBytes), perMsgLength)
+	// The number of parts depends on where escape pairs fall (a part gives up its last septet when that would be an
+	// escape indicator), so count them first with the same cut rule that builds them.
+	msgCount := 0
+	for begin := 0; begin < len(contentBytes); begin = packedPartEnd(contentBytes, begin) {
+		msgCount++
+	}
 	if msgCount > maxLongSmsParts {
 		return nil, 0, errTooManyParts
 	}
 	res := make([][]byte, 0, msgCount)
 
-	begin, end := 0, perMsgLength
-	for idx := 0; idx < msgCount; idx++ {
-		if end > len(contentBytes) {
-			end = len(contentBytes)
-		}
-		if begin >= end {
-			continue
-		}
-
-		// Boundary case: When the last byte of a non-final part happens to be the indicator for an extended character,
-		// cutting at this point would split these two bytes.
-		// To avoid this scenario, the preceding part should pack one byte less, ensuring that 0x1b is placed within the next byte.
-		if idx != msgCount-1 && contentBytes[end-1] == gsm7encoding.EscapeSequence {
-			end--
-		}
+	begin := 0
+	for idx := 0; begin < len(contentBytes); idx++ {
+		end := packedPartEnd(contentBytes, begin)
 
 		// append UDHI
 		contentByte := make([]byte, 0, (end-begin)+datacoding.UDHILength)
@@ -243,10 +235,22 @@ func encodeAndSplitGSM7Packed(content string, frameKey byte) ([][]byte, datacodi
 		res = append(res, contentByte)
 
 		begin = end
-		end += perMsgLength
 	}
 
 	return res, dataCoding, nil
+}
+
+// packedPartEnd returns where the part that starts at begin ends: it holds at most 153 septets, one less when the
+// 153rd would be an escape indicator whose code falls into the next part (cutting there would split the pair).
+func packedPartEnd(septets []byte, begin int) int {
+	end := begin + datacoding.SplitBy153
+	if end >= len(septets) {
+		return len(septets)
+	}
+	if septets[end-1] == gsm7encoding.EscapeSequence {
+		end--
+	}
+	return end
 }
 
 // splitWithUDHI splits the long message according to perMsgLength and adds a 6-byte header for concatenated SMS.
